@@ -249,6 +249,7 @@ type stdioTransport struct {
 	logger      Logger
 	contextFunc StdioContextFunc
 	session     *stdioSession
+	writeMu     sync.Mutex // serializes frames written to stdout by concurrent goroutines.
 }
 
 // stdioServerTransportOption configures a stdioTransport.
@@ -525,6 +526,11 @@ func (s *stdioTransport) writeResponse(response interface{}, writer io.Writer) e
 			return fmt.Errorf("error marshaling response: %w", err)
 		}
 	}
+
+	// One goroutine per request plus the outgoing-message pump write to the same stream: a frame
+	// (payload and its newline) must not be interleaved with another one.
+	s.writeMu.Lock()
+	defer s.writeMu.Unlock()
 
 	if _, err := writer.Write(data); err != nil {
 		return fmt.Errorf("error writing response: %w", err)
